@@ -44,6 +44,10 @@ class TLCResult:
         if m:
             self.generated = int(m.group(1))
             self.distinct = int(m.group(2))
+        else:
+            m = re.search(r"The number of states generated: (\d+)", out)
+            if m:
+                self.generated = int(m.group(1))
         self.error = None
         m = re.search(r"^Error: (.*)$", out, re.M)
         if m:
